@@ -93,3 +93,55 @@ Proof.
   pose proof (control_independent _ _ _ _ B1 B2) as HB.
   rewrite E in HA. rewrite HA in HB. injection HB as -> ->. auto.
 Qed.
+
+(* ---- folder uploads ---- *)
+Lemma copy_n_take n c :
+  let '(w, rest, ok) := copy_n n c in
+  if ok then take_exact (N.of_nat n) (concat c) = Some (w, concat rest)
+  else take_exact (N.of_nat n) (concat c) = None.
+Proof.
+  pose proof (copy_n_written c n) as H. destruct (copy_n n c) as [[w rest] ok].
+  destruct H as (Hw & Hrest & Hok). unfold take_exact, takeN, dropN, len. rewrite Nat2N.id.
+  destruct (Nat.leb_spec n (List.length (concat c))) as [Hle|Hgt]; subst ok.
+  - replace (N.of_nat n <=? N.of_nat (List.length (concat c))) with true by lia.
+    rewrite Hw, (Hrest eq_refl). reflexivity.
+  - replace (N.of_nat n <=? N.of_nat (List.length (concat c))) with false by lia. reflexivity.
+Qed.
+
+Ltac stagev sz c g r :=
+  let H := fresh "H" in
+  pose proof (read_full_take (N.to_nat sz) c) as H; rewrite N2Nat.id in H;
+  destruct (read_full (N.to_nat sz) c) as [[g r]|]; rewrite H; [|reflexivity].
+Ltac stagec sz c g r ok :=
+  let H := fresh "H" in
+  pose proof (copy_n_take (N.to_nat sz) c) as H; rewrite N2Nat.id in H;
+  destruct (copy_n (N.to_nat sz) c) as [[g r] ok]; destruct ok; rewrite H; [|reflexivity].
+
+Lemma file_body_take c :
+  match file_body_chunks c with
+  | Some (d, r) => file_body_bytes (concat c) = Some (d, concat r)
+  | None => file_body_bytes (concat c) = None
+  end.
+Proof.
+  unfold file_body_chunks, file_body_bytes.
+  stage 24%nat c h c2. stage 16%nat c2 ih c3. stagev (size_of_forkhdr ih) c3 info c4.
+  stage 16%nat c4 dh c5. stagec (size_of_forkhdr dh) c5 d c6 ok.
+  destruct (three_forks h); [|reflexivity].
+  stage 16%nat c6 rh c7. stagec (size_of_forkhdr rh) c7 rs c8 ok2. reflexivity.
+Qed.
+
+Theorem folder_items_independent : forall n chunks,
+  folder_items_chunks n chunks = folder_items_bytes n (concat chunks).
+Proof.
+  induction n as [|n IH]; intros c; [reflexivity|]. cbn [folder_items_chunks folder_items_bytes].
+  stage 2%nat c ds c1. stage 2%nat c1 isf c2. stage 2%nat c2 pc c3. stagev (path_len ds) c3 p c4.
+  destruct (bytes_eqb isf [0; 1]).
+  - rewrite IH. reflexivity.
+  - stage 4%nat c4 sz c5. pose proof (file_body_take c5) as Hb.
+    destruct (file_body_chunks c5) as [[d c6]|]; rewrite Hb; [|reflexivity]. rewrite IH. reflexivity.
+Qed.
+Theorem folder_upload_independent n chunks :
+  folder_upload_chunks n chunks = folder_upload_bytes n (concat chunks).
+Proof.
+  unfold folder_upload_chunks, folder_upload_bytes. stage 16%nat chunks pre c1. apply folder_items_independent.
+Qed.
